@@ -3,6 +3,9 @@ From Coq Require Import List Arith Sorting.Permutation.
 From Pcfg Require Import ProbAlg Next NextSpec NextProofs Session SessionProofs.
 From Pcfg Require Import KernelRt KernelGenProofs.
 From PcfgGen Require Import Consts_gen Kernel_gen.
+From Coq Require Import ZArith NArith.
+From Pcfg Require Import Expand ExpandProofs ExpandRt ExpandGenProofs.
+From PcfgGen Require Import Expand_gen.
 Import ListNotations.
 
 (* side condition on the source: the remaining size is handed to create_guesses *)
@@ -39,5 +42,39 @@ Theorem C17_source_find_children_is_model :
   inrange rs (ipt it) -> py_find_children up un rs it = find_children rs it.
 Proof. exact (fun A up un rs it => kernel_find_children_eq up un rs it). Qed.
 
+(* ---- the expansion PRINCE-LING runs (pcfg.create_guesses(pt, limit = remaining)) is the
+   translated source of create_guesses / _recursive_guesses (gen/Expand_gen.v, regenerated on
+   every run by harness/translate_expand.py), equal to the model Expand.v *)
+Theorem C17_source_recursive_guesses_is_model :
+  forall (upper_c : N -> pstr) (gv : pstr -> Z -> option (list pstr)) (py_int : pstr -> Z) (mcr : Z -> list pstr)
+         (pt : list pnode) (slots : list slot),
+  resolve gv pt = Some slots ->
+  forall (fuel : nat) (cur : str) (l : lim), length pt < fuel ->
+  py_recursive_guesses upper_c gv py_int mcr false fuel cur pt (zlim l) =
+  lift (expand upper_c (omen_of py_int mcr) slots cur l).
+Proof. exact recursive_guesses_eq. Qed.
+
+(* what [prince true] assumes of each group (firstn (n - generated) gs): the translated
+   create_guesses with limit = remaining >= 1 writes exactly the first `remaining` words
+   of the pre-terminal and reports their number *)
+Theorem C17_source_size_inside_preterminal :
+  forall (upper_c : N -> pstr) (gv : pstr -> Z -> option (list pstr)) (py_int : pstr -> Z) (mcr : Z -> list pstr)
+         (honey : pstr -> list pnode -> option Z -> res (list pstr * Z))
+         (segs : list seg) (pt : list pnode) (fuel remaining : nat),
+  segs <> [] -> Forall seg_ok' segs -> remaining >= 1 ->
+  resolve gv pt = Some (flat_map slots_of segs) -> length pt < fuel ->
+  py_create_guesses upper_c gv py_int mcr false honey fuel pt false (Some (Z.of_nat remaining)) =
+  Ok (firstn remaining (denote upper_c segs), Z.of_nat (Nat.min remaining (length (denote upper_c segs)))).
+Proof. exact source_create_guesses_limit. Qed.
+
+Theorem C17_source_example :
+  resolve gv_ex pt_ex = Some (flat_map slots_of segs_ex) /\
+  (segs_ex <> [] /\ Forall seg_ok' segs_ex /\ length pt_ex < 5) /\
+  py_create_guesses up_ascii gv_ex int_ex mcr_ex false honey_ex 5 pt_ex false (Some 5%Z) =
+    Ok (firstn 5 (denote up_ascii segs_ex), 5%Z).
+Proof. exact (conj source_example_resolves (conj source_example_wellformed source_example_limit)). Qed.
+
 Print Assumptions C17_size_exact.
 Print Assumptions C17_sorted_once.
+Print Assumptions C17_source_recursive_guesses_is_model.
+Print Assumptions C17_source_size_inside_preterminal.
